@@ -26,6 +26,7 @@ var (
 	fSeed      = flag.Int64("sim.seed", 1, "VERIF_SEED")
 	fProc      = flag.Int("sim.proc", 0, "process index (decorrelates processes)")
 	fRuns      = flag.Int("sim.runs", 0, "max runs (0 = unlimited)")
+	fFrom      = flag.Int("sim.from", 0, "index of the first run (runs are seeded independently: seed, proc, run)")
 	fSecs      = flag.Float64("sim.secs", 10, "wall-clock budget in seconds")
 	fOut       = flag.String("sim.out", "", "summary JSON output file")
 	fReplayDir = flag.String("sim.replaydir", "", "directory for replay files")
@@ -115,8 +116,11 @@ func TestMain(m *testing.M) {
 }
 
 func propOf(p string) string {
-	if p == "C03scale" {
+	switch p {
+	case "C03scale":
 		return "C03"
+	case "C10scale", "C10scale8":
+		return "C10"
 	}
 	return p
 }
@@ -142,9 +146,24 @@ func writeReplay(dir string, rp *Replay) string {
 	_ = os.MkdirAll(dir, 0o755)
 	name := fmt.Sprintf("%s_l2_%s_s%d_p%d_r%d.json", rp.Property, sanitize(classKey(rp.Class)), rp.Found.Seed, rp.Found.Proc, rp.Found.Run)
 	path := filepath.Join(dir, name)
+	rp.History, rp.Trace = clip(rp.History, 600), clip(rp.Trace, 3000)
 	b, _ := json.MarshalIndent(rp, "", " ")
+	if len(b) > 4<<20 {
+		b, _ = json.Marshal(rp) // very large workloads: compact encoding
+	}
 	_ = os.WriteFile(path, b, 0o644)
 	return path
+}
+
+// clip keeps the head and the tail of a long listing (the replay re-creates
+// the full one with ./check replay).
+func clip(l []string, n int) []string {
+	if len(l) <= n {
+		return l
+	}
+	out := append([]string{}, l[:n/2]...)
+	out = append(out, fmt.Sprintf("... %d lines omitted (re-run ./check replay <file> for the full listing) ...", len(l)-n))
+	return append(out, l[len(l)-n/2:]...)
 }
 
 func sanitize(s string) string {
@@ -199,8 +218,8 @@ func TestSim(t *testing.T) {
 		defer hashF.Close()
 	}
 	seenClass := map[string]bool{}
-	for run := 0; ; run++ {
-		if *fRuns > 0 && run >= *fRuns {
+	for run := *fFrom; ; run++ {
+		if *fRuns > 0 && run >= *fFrom+*fRuns {
 			break
 		}
 		if *fSecs > 0 && time.Since(start).Seconds() > *fSecs {
@@ -267,6 +286,9 @@ func TestSim(t *testing.T) {
 			sum.Samples = append(sum.Samples, b)
 		}
 		viol := Check(res)
+		for k, n := range res.OracleProbes {
+			sum.Probes[k] += n
+		}
 		for _, v := range viol {
 			want := propOf(prop)
 			if *fReport != "" {
